@@ -444,6 +444,22 @@ Definition do_run (cycles fuel : nat) (p : prog) : st :=
     cycle_loop (p_tock p) cycles fuel (set_rlive s1 true) limit stop
   end.
 
+(* A further run of the same Doist: do(limit=..., tyme=...) without doers keeps .doers (incl. those added
+   at runtime) and the (empty) deque, resets .done, optionally the tyme; `limit` is the effective limit
+   (a new one, or the one kept from before). *)
+Definition do_again (cycles fuel : nat) (tk : T) (limit : option T) (tyme' : option T) (s : st) : st :=
+  let sa := match tyme' with Some t => set_tyme s t | None => s end in
+  let s0 := set_done (set_rlive sa false) 0%N (Some false) in
+  let '(s1, r) := enter_own tk fuel s0 0%N (doers (get_sched s0 0%N)) in
+  match r with
+  | GRaise _ => emit (close_own tk fuel s1 0%N) DoRaise 0%N
+  | GFuel => s1
+  | _ =>
+    let lim := option_map tabs limit in
+    let stop := tadd (tyme s1) (match lim with Some l => l | None => tzero end) in
+    cycle_loop tk cycles fuel (set_rlive s1 true) lim stop
+  end.
+
 (* Doist.ado differs from Doist.do only in how it waits between cycles
    (await asyncio.sleep(0) instead of nothing); no model state is involved. *)
 Definition ado_run := do_run.
